@@ -12,6 +12,7 @@ import (
 	"io"
 	"math/rand"
 	"os"
+	"runtime/pprof"
 	"sort"
 	"strings"
 	"sync"
@@ -21,6 +22,12 @@ import (
 	"github.com/codenotary/immudb/embedded/store"
 	"verif/harness/vk"
 )
+
+// smallBuffers: the default write buffers (4 MB per log, 16 MB per AHT log) are zeroed at every
+// Open and dominate the run time of a harness that opens hundreds of stores
+func smallBuffers(o *store.Options) *store.Options {
+	return o.WithWriteBufferSize(1 << 14).WithAHTOptions(store.DefaultAHTOptions().WithWriteBufferSize(1 << 14))
+}
 
 func quietLogger() logger.Logger {
 	return logger.NewSimpleLoggerWithLevel("vh", io.Discard, logger.LogError)
@@ -41,8 +48,8 @@ func obsOf(s *store.ImmuStore) obs {
 	return o
 }
 
-func (o obs) term() string {
-	return fmt.Sprintf("(Obs %d %s %d %s)", o.cid, vk.Hex(o.calh[:]), o.pid, vk.Hex(o.palh[:]))
+func (o obs) term(in *interner) string {
+	return fmt.Sprintf("(Obs %d %s %d %s)", o.cid, in.ref(o.calh[:]), o.pid, in.ref(o.palh[:]))
 }
 
 func (o obs) js() map[string]any {
@@ -59,12 +66,21 @@ type cfg struct {
 }
 
 func (c cfg) term() string {
-	return fmt.Sprintf("{| c_ext := %s; c_maxActive := %d; c_maxKeyLen := %d; c_maxValueLen := %d; c_maxTxEntries := %d |}",
-		vk.Bool(c.ext), c.maxActive, c.maxKeyLen, c.maxValueLen, c.maxTxEntries)
+	return fmt.Sprintf("{| c_ext := %s; c_maxActive := %d; c_maxKeyLen := %d; c_maxValueLen := %d; c_maxTxEntries := %d; c_stale := %s; c_embedded := %s |}",
+		vk.Bool(c.ext), c.maxActive, c.maxKeyLen, c.maxValueLen, c.maxTxEntries, vk.Bool(staleHolder), vk.Bool(c.embedded))
+}
+
+// limits of the primary and of an unrestricted replica (tx holders are MaxTxEntries*MaxKeyLen bytes
+// each and are allocated by the dozen at every Open: the defaults 1024*1024 make that the whole cost)
+const stdKeyLen, stdTxEntries = 64, 16
+
+// defaultLimits: the replica accepts every transaction the primary (default limits) can commit
+func (c cfg) defaultLimits() bool {
+	return c.maxKeyLen >= stdKeyLen && c.maxValueLen >= 4096 && c.maxTxEntries >= stdTxEntries
 }
 
 func (c cfg) opts() *store.Options {
-	return store.DefaultOptions().WithSynced(false).WithLogger(quietLogger()).
+	return smallBuffers(store.DefaultOptions()).WithSynced(false).WithLogger(quietLogger()).
 		WithExternalCommitAllowance(c.ext).WithMaxActiveTransactions(c.maxActive).
 		WithMaxKeyLen(c.maxKeyLen).WithMaxValueLen(c.maxValueLen).WithMaxTxEntries(c.maxTxEntries).
 		WithEmbeddedValues(c.embedded).WithMaxConcurrency(8).WithMaxWaitees(64)
@@ -139,8 +155,9 @@ func buildHistory(rng *rand.Rand, sp histSpec) (*history, error) {
 	clock := int64(1600000000 + rng.Intn(100000000))
 	timeFunc := func() time.Time { clock += int64(1 + rng.Intn(3)); return time.Unix(clock, 0) }
 	mkOpts := func(version int) *store.Options {
-		o := store.DefaultOptions().WithSynced(false).WithLogger(quietLogger()).
-			WithWriteTxHeaderVersion(version).WithTimeFunc(timeFunc).WithMaxConcurrency(4)
+		o := smallBuffers(store.DefaultOptions()).WithSynced(false).WithLogger(quietLogger()).
+			WithWriteTxHeaderVersion(version).WithTimeFunc(timeFunc).WithMaxConcurrency(4).
+			WithMaxKeyLen(stdKeyLen).WithMaxTxEntries(stdTxEntries)
 		if sp.truncate {
 			o = o.WithEmbeddedValues(false).WithFileSize(256).WithMaxIOConcurrency(1)
 		}
@@ -294,6 +311,19 @@ type storeCase struct {
 	// diverged: the replica holds a transaction that is not the primary's (after an accepted alteration)
 	diverged bool
 	label    string
+	in       *interner
+	// since the last Open: a discard happened (the in-memory precommit watcher is not receded by
+	// DiscardPrecommittedTxsSince, so concurrent deliveries stop waiting for their predecessor)
+	discardedSinceOpen bool
+	restarts           int
+	idx                int
+	staleHit           bool
+	lost               bool
+}
+
+func (sc *storeCase) find(text string) {
+	sc.r.Finding(fmt.Sprintf("%s [seed %d case %d: ext=%v maxActive=%d maxKeyLen=%d maxValueLen=%d maxTxEntries=%d embedded=%v; primary %s]",
+		text, sc.r.Seed, sc.idx, sc.c.ext, sc.c.maxActive, sc.c.maxKeyLen, sc.c.maxValueLen, sc.c.maxTxEntries, sc.c.embedded, sc.h.desc))
 }
 
 func (sc *storeCase) open() error {
@@ -382,15 +412,15 @@ func (sc *storeCase) deliver(b []byte, skip bool, genuineID uint64, what string)
 	})
 	cancel()
 	after := obsOf(sc.replica)
-	sc.add(fmt.Sprintf("SDeliver %s %s %s %s", vk.Bool(skip), vk.Hex(b), resUnit(cls), after.term()),
+	sc.add(fmt.Sprintf("SDeliver %s %s %s %s", vk.Bool(skip), sc.in.ref(b), resUnit(cls), after.term(sc.in)),
 		map[string]any{"op": "deliver", "what": what, "skip": skip, "bytes": fmt.Sprintf("%x", b), "out": cls, "err": errStr(err), "after": after.js()})
 	sc.stats["deliver/"+strings.SplitN(what, ":", 2)[0]+[]string{"/accepted", "/rejected", "/panic"}[cls]]++
 	switch cls {
 	case 2:
-		sc.r.Finding(fmt.Sprintf("ReplicateTx panicked (%s): %v; export %x", what, err, b))
+		sc.find(fmt.Sprintf("ReplicateTx panicked (%s): %v; export %x", what, err, b))
 	case 1:
 		if before != after {
-			sc.r.Finding(fmt.Sprintf("rejected delivery (%s, error %v) changed the replica state %v -> %v; export %x", what, err, before.js(), after.js(), b))
+			sc.find(fmt.Sprintf("rejected delivery (%s, error %v) changed the replica state %v -> %v; export %x", what, err, before.js(), after.js(), b))
 		}
 	case 0:
 		id := hdr.ID
@@ -403,12 +433,17 @@ func (sc *storeCase) deliver(b []byte, skip bool, genuineID uint64, what string)
 			sc.diverged = true
 			if genuineID > 0 {
 				if !sc.divergedBefore(id) {
-					sc.r.Finding(fmt.Sprintf("replica accepted the unaltered export of tx %d but its Alh %x differs from the primary's %x", genuineID, hdr.Alh(), palh))
+					if hdr.BlTxID == 0 && hdr.BlRoot != [sha256.Size]byte{} {
+						sc.staleHit = true
+						sc.find(fmt.Sprintf("ReplicateTx stored a non-zero BlRoot for a transaction with BlTxID=0 (stale tx holder): unaltered export of tx %d accepted, header BlRoot %x, replica Alh %x, primary Alh %x", genuineID, hdr.BlRoot, hdr.Alh(), palh))
+					} else {
+						sc.find(fmt.Sprintf("replica accepted the unaltered export of tx %d but its Alh %x differs from the primary's %x", genuineID, hdr.Alh(), palh))
+					}
 				}
 			} else {
 				mode := ""
 				if skip {
-					mode = " (skipIntegrityCheck)"
+					mode = " (skipIntegrityCheck=true)"
 				}
 				fam := family(sc.h, b, skip)
 				if skip && fam == "Eh and entries" {
@@ -417,8 +452,8 @@ func (sc *storeCase) deliver(b []byte, skip bool, genuineID uint64, what string)
 				if fam == "entries (skipIntegrityCheck)" {
 					fam = "entries"
 				}
-				sc.r.Finding(fmt.Sprintf("ReplicateTx%s accepted an export with altered %s: tx %d, alteration %s, replica Alh %x, primary Alh %x, export %x",
-					mode, fam, id, what, hdr.Alh(), palh, b))
+				sc.find(fmt.Sprintf("ReplicateTx accepted an export with altered %s%s: tx %d, alteration %s, replica Alh %x, primary Alh %x, export %x",
+					fam, mode, id, what, hdr.Alh(), palh, b))
 			}
 		}
 	}
@@ -438,6 +473,7 @@ func (sc *storeCase) divergedBefore(id uint64) bool {
 }
 
 func (sc *storeCase) restart() error {
+	before := obsOf(sc.replica)
 	if err := sc.replica.Close(); err != nil {
 		return fmt.Errorf("replica close: %w", err)
 	}
@@ -445,8 +481,28 @@ func (sc *storeCase) restart() error {
 		return fmt.Errorf("replica reopen: %w", err)
 	}
 	after := obsOf(sc.replica)
-	sc.add(fmt.Sprintf("SRestart %s", after.term()), map[string]any{"op": "restart", "after": after.js()})
+	sc.add(fmt.Sprintf("SRestart %s", after.term(sc.in)), map[string]any{"op": "restart", "after": after.js()})
 	sc.stats["restart"]++
+	if sc.c.embedded && after.pid < before.pid && after.cid == 0 {
+		// the reload loop mis-read the embedded-values prefix; what it left in the tx holder (it
+		// matters for a later tx 1, stale-BlRoot finding) is not modelled: the case ends here
+		sc.lost = true
+	}
+	if after.pid < before.pid && (sc.c.embedded || !sc.discardedSinceOpen) {
+		// (after a discard in the same session, reopening resurrects the discarded records and drops
+		// what was precommitted behind them: documented at DiscardPrecommittedTxsSince)
+		if sc.c.embedded {
+			sc.find(fmt.Sprintf("Close+Open of a replica store with embedded values dropped its precommitted transactions %d..%d (durable precommits already reported to a primary are lost)", after.pid+1, before.pid))
+		} else {
+			sc.find(fmt.Sprintf("Close+Open of the replica store dropped precommitted transactions %d..%d", after.pid+1, before.pid))
+		}
+	}
+	if after.cid != before.cid || after.calh != before.calh {
+		sc.find(fmt.Sprintf("Close+Open changed the committed state of the replica %v -> %v", before.js(), after.js()))
+	}
+	sc.discardedSinceOpen = false
+	sc.restarts++
+	sc.recheckDiverged() // reopening takes discarded records back
 	return nil
 }
 
@@ -465,16 +521,17 @@ func (sc *storeCase) discard(t uint64) {
 	} else if cls == 1 {
 		out = "(Err 0)"
 	}
-	sc.add(fmt.Sprintf("SDiscard %d %s %s", t, out, after.term()),
+	sc.add(fmt.Sprintf("SDiscard %d %s %s", t, out, after.term(sc.in)),
 		map[string]any{"op": "discard", "t": t, "out": cls, "n": n, "err": errStr(err), "after": after.js()})
 	sc.stats["discard"+[]string{"/ok", "/err", "/panic"}[cls]]++
 	if cls == 1 && before != after {
-		sc.r.Finding(fmt.Sprintf("failed DiscardPrecommittedTxsSince(%d) changed the replica state", t))
+		sc.find(fmt.Sprintf("failed DiscardPrecommittedTxsSince(%d) changed the replica state", t))
 	}
 	if after.cid != before.cid || after.calh != before.calh {
-		sc.r.Finding(fmt.Sprintf("DiscardPrecommittedTxsSince(%d) changed the COMMITTED state %v -> %v", t, before.js(), after.js()))
+		sc.find(fmt.Sprintf("DiscardPrecommittedTxsSince(%d) changed the COMMITTED state %v -> %v", t, before.js(), after.js()))
 	}
 	if cls == 0 && n > 0 {
+		sc.discardedSinceOpen = true
 		sc.recheckDiverged()
 	}
 }
@@ -488,14 +545,14 @@ func (sc *storeCase) allow(t uint64) {
 	before := obsOf(sc.replica)
 	cls, err := call(func() error { return sc.replica.AllowCommitUpto(t) })
 	after := obsOf(sc.replica)
-	sc.add(fmt.Sprintf("SAllow %d %s %s", t, vk.Bool(cls == 0), after.term()),
+	sc.add(fmt.Sprintf("SAllow %d %s %s", t, vk.Bool(cls == 0), after.term(sc.in)),
 		map[string]any{"op": "allow", "t": t, "out": cls, "err": errStr(err), "after": after.js()})
 	sc.stats["allow"+[]string{"/ok", "/err", "/panic"}[cls]]++
 	if after.cid < before.cid {
-		sc.r.Finding(fmt.Sprintf("AllowCommitUpto(%d) moved the committed id backwards %d -> %d", t, before.cid, after.cid))
+		sc.find(fmt.Sprintf("AllowCommitUpto(%d) moved the committed id backwards %d -> %d", t, before.cid, after.cid))
 	}
 	if sc.c.ext && after.cid > before.cid && after.cid > t {
-		sc.r.Finding(fmt.Sprintf("AllowCommitUpto(%d) committed up to %d", t, after.cid))
+		sc.find(fmt.Sprintf("AllowCommitUpto(%d) committed up to %d", t, after.cid))
 	}
 }
 
@@ -528,9 +585,9 @@ func (sc *storeCase) batch(ids []uint64, skip bool) {
 		}
 	}
 	for _, id := range sorted {
-		terms = append(terms, vk.Hex(sc.h.exports[id-1]))
+		terms = append(terms, sc.in.ref(sc.h.exports[id-1]))
 	}
-	sc.add(fmt.Sprintf("SBatch %s %s %d %s", vk.Bool(skip), vk.List(terms), n, after.term()),
+	sc.add(fmt.Sprintf("SBatch %s %s %d %s", vk.Bool(skip), vk.List(terms), n, after.term(sc.in)),
 		map[string]any{"op": "batch", "ids": ids, "accepted": n, "after": after.js()})
 	sc.stats["batch"]++
 }
@@ -542,7 +599,7 @@ func (sc *storeCase) emit(kind string, nontrivial bool) {
 		terms = append(terms, s.term)
 		js = append(js, s.js)
 	}
-	sc.r.Case(fmt.Sprintf("CStore %s %s", sc.c.term(), vk.List(terms)),
+	sc.r.Case(sc.in.wrap(fmt.Sprintf("CStore %s %s", sc.c.term(), vk.List(terms))),
 		map[string]any{"kind": "store", "label": sc.label, "cfg": sc.c.term(), "history": sc.h.desc, "steps": js,
 			"seed": sc.r.Seed, "n": genN}, kind, nontrivial)
 }
@@ -554,23 +611,23 @@ func (sc *storeCase) finalCheck() {
 	for id := uint64(1); id <= o.cid && id <= sc.h.n; id++ {
 		rtx := store.NewTx(sc.replica.MaxTxEntries(), sc.replica.MaxKeyLen())
 		if err := sc.replica.ReadTx(id, false, rtx); err != nil {
-			sc.r.Finding(fmt.Sprintf("replica cannot read its committed tx %d: %v", id, err))
+			sc.find(fmt.Sprintf("replica cannot read its committed tx %d: %v", id, err))
 			return
 		}
 		ph, rh := sc.h.hdrs[id-1], rtx.Header()
 		if ph.Alh() != rh.Alh() {
 			if !sc.diverged {
-				sc.r.Finding(fmt.Sprintf("final: replica tx %d Alh %x differs from the primary's %x although no alteration was accepted", id, rh.Alh(), ph.Alh()))
+				sc.find(fmt.Sprintf("final: replica tx %d Alh %x differs from the primary's %x although no alteration was accepted", id, rh.Alh(), ph.Alh()))
 			}
 			return // everything after a diverged transaction is reported at the delivery
 		}
 		if ph.ID != rh.ID || ph.Ts != rh.Ts || ph.Version != rh.Version || ph.NEntries != rh.NEntries || ph.Eh != rh.Eh ||
 			ph.BlTxID != rh.BlTxID || ph.BlRoot != rh.BlRoot || ph.PrevAlh != rh.PrevAlh {
-			sc.r.Finding(fmt.Sprintf("final: replica tx %d header differs from the primary's with equal Alh", id))
+			sc.find(fmt.Sprintf("final: replica tx %d header differs from the primary's with equal Alh", id))
 		}
 		pes, res := sc.h.txs[id-1].Entries(), rtx.Entries()
 		if len(pes) != len(res) {
-			sc.r.Finding(fmt.Sprintf("final: replica tx %d has %d entries, primary %d", id, len(res), len(pes)))
+			sc.find(fmt.Sprintf("final: replica tx %d has %d entries, primary %d", id, len(res), len(pes)))
 			continue
 		}
 		for i := range pes {
@@ -582,7 +639,7 @@ func (sc *storeCase) finalCheck() {
 				rm = res[i].Metadata().Bytes()
 			}
 			if !bytes.Equal(pes[i].Key(), res[i].Key()) || !bytes.Equal(pm, rm) || pes[i].HVal() != res[i].HVal() {
-				sc.r.Finding(fmt.Sprintf("final: replica tx %d entry %d differs from the primary's (key/metadata/value hash)", id, i))
+				sc.find(fmt.Sprintf("final: replica tx %d entry %d differs from the primary's (key/metadata/value hash)", id, i))
 				continue
 			}
 			val, err := sc.replica.ReadValue(res[i])
@@ -590,13 +647,43 @@ func (sc *storeCase) finalCheck() {
 				continue // the primary no longer has the value; the replica stores none
 			}
 			if err != nil || !bytes.Equal(val, sc.h.vals[id-1][i]) {
-				sc.r.Finding(fmt.Sprintf("final: replica tx %d entry %d value differs from the primary's (err %v)", id, i, err))
+				sc.find(fmt.Sprintf("final: replica tx %d entry %d value differs from the primary's (err %v)", id, i, err))
 			}
 		}
 	}
 }
 
 var genN int
+
+// useTmpfs: the stores fsync on every Close (index flush); on a loaded disk that dominates the
+// run. os.MkdirTemp("", ...) follows TMPDIR, which is pointed at a memory file system when one
+// is there (durability against power loss is not what this check is about).
+func useTmpfs() {
+	if os.Getenv("VERIF_KEEP_TMPDIR") != "" {
+		return
+	}
+	if fi, err := os.Stat("/dev/shm"); err == nil && fi.IsDir() {
+		if d, err := os.MkdirTemp("/dev/shm", "vh-c07-probe"); err == nil {
+			os.RemoveAll(d)
+			os.Setenv("TMPDIR", "/dev/shm")
+		}
+	}
+}
+
+// staleHolder: result of probeStale on this build of /repo
+var staleHolder bool
+
+func runProbe(r *vk.Run) error {
+	st, detail, err := probeStale()
+	if err != nil {
+		return err
+	}
+	staleHolder = st
+	if st {
+		r.Finding("ReplicateTx stored a non-zero BlRoot for a transaction with BlTxID=0 (stale tx holder), all exports unaltered: " + detail)
+	}
+	return nil
+}
 
 func runStoreCase(r *vk.Run, idx int) error {
 	rng := r.Rng
@@ -617,7 +704,7 @@ func runStoreCase(r *vk.Run, idx int) error {
 		return err
 	}
 	defer h.close()
-	c := cfg{ext: rng.Intn(2) == 0, maxActive: 1000, maxKeyLen: 1024, maxValueLen: 4096, maxTxEntries: 1024, embedded: rng.Intn(4) == 0}
+	c := cfg{ext: rng.Intn(2) == 0, maxActive: 1000, maxKeyLen: stdKeyLen, maxValueLen: 4096, maxTxEntries: stdTxEntries, embedded: rng.Intn(4) == 0}
 	switch rng.Intn(6) {
 	case 0:
 		c.maxActive = 2 + rng.Intn(3)
@@ -631,7 +718,10 @@ func runStoreCase(r *vk.Run, idx int) error {
 		return err
 	}
 	defer os.RemoveAll(dir)
-	sc := &storeCase{r: r, rng: rng, c: c, h: h, dir: dir, stats: map[string]int{}}
+	sc := &storeCase{r: r, rng: rng, c: c, h: h, dir: dir, stats: map[string]int{}, in: &interner{}, idx: idx}
+	for _, e := range h.exports {
+		sc.in.ref(e)
+	}
 	if err := sc.open(); err != nil {
 		return err
 	}
@@ -678,13 +768,20 @@ func (sc *storeCase) schedule(skip bool, alterations bool) error {
 	rng := sc.rng
 	h := sc.h
 	timeouts := 0
-	for it := 0; it < 60 && (obsOf(sc.replica).cid < h.n) && !(sc.diverged && !sc.c.ext); it++ {
+	stuckAt, stuck := uint64(0), 0
+	for it := 0; it < 60 && stuck < 2 && !sc.lost && (obsOf(sc.replica).cid < h.n) && !(sc.diverged && !sc.c.ext); it++ {
 		nx := sc.next()
 		o := obsOf(sc.replica)
 		if sc.diverged && sc.c.ext {
 			// what the replicator does once the primary reports divergence: discard the precommitted backlog
 			sc.discard(o.cid + 1)
 			if sc.diverged { // an accepted alteration was committed: the replica is lost
+				break
+			}
+			if sc.staleHit {
+				// tx 1 re-precommitted after a discard picked up a stale BlRoot (known finding) and
+				// will do so again, even after a reopening (the reload loop leaves the BlRoot of the
+				// last record it read in the holder): this replica cannot catch up any more
 				break
 			}
 			continue
@@ -696,6 +793,11 @@ func (sc *storeCase) schedule(skip bool, alterations bool) error {
 				l := parseLayout(h.exports[nx-1])
 				alts := boundaryAlterations(rng, h.exports[nx-1], l, 10)
 				for _, a := range alts {
+					if !sc.c.ext && nx < h.n && strings.HasSuffix(a.name, ":Ts") {
+						// an accepted alteration is committed at once by an asynchronous replica and
+						// ends the run: keep it for the last transaction
+						continue
+					}
 					if sc.deliver(a.bytes, skip, 0, "altered:"+a.name) == 0 {
 						break
 					}
@@ -708,7 +810,16 @@ func (sc *storeCase) schedule(skip bool, alterations bool) error {
 					continue
 				}
 			}
-			sc.deliver(h.exports[nx-1], skip, nx, "next")
+			if sc.deliver(h.exports[nx-1], skip, nx, "next") != 0 {
+				// the replica's own limits (MaxKeyLen, MaxTxEntries, ...) or a full precommit buffer
+				if o2 := obsOf(sc.replica); sc.c.ext && o2.pid > o2.cid {
+					sc.allow(o2.pid)
+				} else if stuckAt == nx {
+					stuck++
+				} else {
+					stuckAt, stuck = nx, 1
+				}
+			}
 		case nx < h.n && p < 52 && timeouts < 2:
 			// a later transaction of the window first: it waits for its predecessor
 			timeouts++
@@ -733,7 +844,7 @@ func (sc *storeCase) schedule(skip bool, alterations bool) error {
 				t = o.cid + 1 + uint64(rng.Intn(int(o.pid-o.cid)))
 			}
 			sc.allow(t)
-		case p < 96 && nx+1 <= h.n:
+		case p < 96 && nx+1 <= h.n && !sc.discardedSinceOpen:
 			k := 2 + rng.Intn(3)
 			var ids []uint64
 			for id := nx; id <= h.n && len(ids) < k; id++ {
@@ -754,7 +865,7 @@ func (sc *storeCase) schedule(skip bool, alterations bool) error {
 		}
 	}
 	// drain: in-order delivery of what is left, then allow everything
-	for it := 0; it < int(h.n)+2 && !sc.diverged; it++ {
+	for it := 0; it < int(h.n)+2 && !sc.diverged && !sc.lost; it++ {
 		nx := sc.next()
 		if nx > h.n {
 			break
@@ -768,12 +879,12 @@ func (sc *storeCase) schedule(skip bool, alterations bool) error {
 			break
 		}
 	}
-	if sc.c.ext && !sc.diverged {
+	if sc.c.ext && !sc.diverged && !sc.lost {
 		sc.allow(obsOf(sc.replica).pid)
 	}
-	if !sc.diverged {
+	if !sc.diverged && !sc.lost && sc.c.defaultLimits() {
 		if o := obsOf(sc.replica); o.cid != h.n {
-			sc.r.Finding(fmt.Sprintf("replica fed with every unaltered export in order ended at committed id %d, primary has %d", o.cid, h.n))
+			sc.find(fmt.Sprintf("replica fed with every unaltered export in order ended at committed id %d, primary has %d", o.cid, h.n))
 		}
 	}
 	return nil
@@ -801,6 +912,9 @@ func (sc *storeCase) forge(skip bool) error {
 			fs = fs[:5]
 		}
 		for _, f := range fs {
+			if !sc.c.ext && id < h.n && acceptedFamily(f.name, skip) {
+				continue // would be committed for good by an asynchronous replica: last transaction only
+			}
 			if sc.deliver(f.bytes, skip, 0, f.name) == 0 {
 				// accepted: get rid of it again when the store allows that, otherwise the replica is lost
 				o := obsOf(sc.replica)
@@ -813,7 +927,9 @@ func (sc *storeCase) forge(skip bool) error {
 			}
 		}
 		if sc.deliver(h.exports[id-1], skip, id, "next") != 0 {
-			sc.r.Finding(fmt.Sprintf("replica holding the primary's transactions 1..%d rejected the unaltered export of tx %d", id-1, id))
+			if sc.c.defaultLimits() {
+				sc.find(fmt.Sprintf("replica holding the primary's transactions 1..%d rejected the unaltered export of tx %d", id-1, id))
+			}
 			return nil
 		}
 		if sc.c.ext && sc.rng.Intn(2) == 0 {
@@ -826,6 +942,17 @@ func (sc *storeCase) forge(skip bool) error {
 	return nil
 }
 
+// acceptedFamily: forgeries the code is known to accept (see known_findings/C07.json)
+func acceptedFamily(name string, skip bool) bool {
+	switch name {
+	case "forge:Ts", "forge:BlTxID+BlRoot", "forge:Metadata", "forge:Version", "forge:Eh+entries", "forge:Eh+key":
+		return true
+	case "forge:entries-only":
+		return skip
+	}
+	return false
+}
+
 func minU(a, b uint64) uint64 {
 	if a < b {
 		return a
@@ -835,7 +962,17 @@ func minU(a, b uint64) uint64 {
 
 // Gen: n is the number of cases (schedules); a fifth of them are database-level sync cases
 func Gen(r *vk.Run, n int) error {
+	useTmpfs()
+	if pf := os.Getenv("C07_PROFILE"); pf != "" {
+		f, _ := os.Create(pf)
+		pprof.StartCPUProfile(f)
+		defer pprof.StopCPUProfile()
+	}
 	genN = n
+	if err := runProbe(r); err != nil {
+		return err
+	}
+	t0 := time.Now()
 	for i := 0; i < n; i++ {
 		var err error
 		if i%5 == 4 {
@@ -846,6 +983,9 @@ func Gen(r *vk.Run, n int) error {
 		if err != nil {
 			return fmt.Errorf("case %d: %w", i, err)
 		}
+		if os.Getenv("C07_TIMING") != "" {
+			fmt.Fprintf(os.Stderr, "case %d done at %v\n", i, time.Since(t0))
+		}
 	}
 	return nil
 }
@@ -853,6 +993,7 @@ func Gen(r *vk.Run, n int) error {
 // Replay regenerates the run the case came from (every choice derives from the seed) and keeps
 // the case with the recorded index only.
 func Replay(r *vk.Run, c map[string]any) error {
+	useTmpfs()
 	seed, ok1 := c["seed"].(float64)
 	n, ok2 := c["n"].(float64)
 	idx, ok3 := c["idx"].(float64)
@@ -869,6 +1010,9 @@ func Replay(r *vk.Run, c map[string]any) error {
 		return err
 	}
 	genN = int(n)
+	if err := runProbe(rr); err != nil {
+		return err
+	}
 	for i := 0; i <= int(idx); i++ {
 		if i == int(idx) {
 			// same generator state, recorded into the real run
